@@ -281,7 +281,17 @@ def r05_4(ctx):
             if nm in ("write_f32", "write_f64") and "Formatter" in (t.get("trait") or t["callee"]):
                 sites.append((fn, b, t))
     ctx.floor("R05.4", "float writer call sites", len(sites), 4)
+    expanded = []
     for fn, b, t in sites:
+        # a writer call inside a closure (`self.quoted(|f, w| f.write_f64(w, value))`) is guarded where the closure is made
+        if fn.parent_fn and fn.parent_fn in prog.fns:
+            par = prog.fns[fn.parent_fn]
+            made = [pb for pb, pi, ps in par.assigns() if ps["rv"]["k"] == "agg" and ps["rv"].get("ak") == "closure" and ps["rv"].get("def") == fn.id]
+            if made:
+                expanded += [(par, pb, t) for pb in made]
+                continue
+        expanded.append((fn, b, t))
+    for fn, b, t in expanded:
         if fn.name in ("write_f32", "write_f64"):
             ctx.ob("R05.4", f"{short(fn.id)}:forward", True, fn.loc(t["ln"]), "formatter forwarding to another formatter's float writer", nontrivial=False)
             continue
